@@ -832,6 +832,9 @@ def expected_attrs(d):
 
 
 def actual_attrs(s):
+    if not hasattr(s, "shape") or not hasattr(s, "dtype"):  # a nested Spec (or something else entirely)
+        return {"type": type(s).__name__, "name": getattr(s, "name", None),
+                "children": sorted(getattr(s, "_specs", {}))}
     out = {"type": type(s).__name__, "shape": tuple(s.shape), "dtype": str(np.dtype(s.dtype)), "name": s.name}
     for key, attr in (("min", "minimum"), ("max", "maximum"), ("num_values", "num_values")):
         if hasattr(s, attr):
@@ -1256,12 +1259,19 @@ def check_replace_leaf(E, s, d, attrs, target):
 def check_replace_nested(E, s, d, rep):
     E.ev("replace_kwargs")
     new = {f: build_spec(nd) for f, nd in rep.items()}
+    before = [(p_, actual_attrs(ls)) for p_, ls, _ in _leaf_specs(s, d)]
     try:
         r = s.replace(**new)
     except Exception as e:  # noqa: BLE001
         E.fail("replace.kwargs", f"nested:raises:{type(e).__name__}", f"replace({sorted(new)}) raised {type(e).__name__}: {e}")
         return
     E.counts["replace_child"] += 1
+    try:
+        after = [(p_, actual_attrs(ls)) for p_, ls, _ in _leaf_specs(s, d)]
+    except Exception:  # noqa: BLE001
+        after = None
+    if after != before:
+        E.fail("replace.kwargs", "nested:mutates_self", f"replace({sorted(new)}) modified the original spec\n  s={s!r}")
     try:
         kids = dict(r._specs)
     except Exception as e:  # noqa: BLE001
